@@ -111,7 +111,10 @@ static std::vector<std::string> cpu_gen(const GenArgs &ga) {
   if (e < 3) backend = name();
   else if (e < 6) target = name();
   else if (e == 6) { backend = name(); target = name(); }
-  std::string code = r.chance(1, 6) ? "debug" : "-";
+  // ORC_CODE may switch single features off ("-sse3", "-avx2", ...): whatever it names, no feature the CPU
+  // lacks may appear, and nothing the CPU cannot execute may become executable
+  static const char *codes[] = {"-", "-", "-", "debug", "-avx2", "-avx", "-sse3,-ssse3", "-sse4a,-sse5", "-sse41,-sse42", "-sse2", "debug,-avx2"};
+  std::string code = codes[r.below(11)];
   pl.push_back(strf("env ORC_BACKEND=%s ORC_TARGET=%s ORC_CODE=%s", backend.c_str(), target.c_str(), code.c_str()));
   static const char *progs[] = {"fixed:addw", "fixed:subb", "fixed:mulll", "fixed:copyb"};
   pl.push_back(strf("prog spec=%s ds=%llu", progs[r.below(4)], (unsigned long long)(r.next() >> 20)));
@@ -217,7 +220,7 @@ static void cpu_run(const std::vector<std::string> &plan, Child &c) {
   fs::reset();
   fs::enable(true);
   fs::set_dir("/tmp", fs::P_OK);
-  bool debug = code == "debug";
+  bool debug = code.find("debug") != std::string::npos;
   Model m = model_of(cpu, debug);
   orc_init();
   install_debug_sink();
@@ -237,7 +240,9 @@ static void cpu_run(const std::vector<std::string> &plan, Child &c) {
       c.violation("executable", strf("marked-executable-without-cpu-support:%s", tn),
                   strf("target %s is marked executable but the presented CPU/OS does not support it (l1ecx=%#x l1edx=%#x l7ebx=%#x maxleaf=%u xcr0=%#x)", tn,
                        cpu.l1ecx, cpu.l1edx, cpu.l7ebx, cpu.maxleaf, cpu.xcr0));
-    if (!t->executable && mexec)
+    // (a feature switched off through ORC_CODE=-<feature> may legitimately make a supported backend non-executable)
+    bool features_switched_off = code.find("-s") != std::string::npos || code.find("-a") != std::string::npos;
+    if (!t->executable && mexec && !features_switched_off)
       c.violation("executable", strf("supported-backend-not-executable:%s", tn),
                   strf("target %s is supported by the presented CPU/OS but is not marked executable", tn));
     // only the feature bits this model knows are judged: a flag bit introduced later is not "a feature the CPU lacks"
@@ -270,7 +275,7 @@ static void cpu_run(const std::vector<std::string> &plan, Child &c) {
     c.violation("byname", "null-name-is-not-default", "orc_target_get_by_name(NULL) does not return the default target");
   c.event("default=%s (model %s) ORC_BACKEND=%s ORC_TARGET=%s", tname(def).c_str(), m.def.c_str(), backend.c_str(), otarget.c_str());
   c.count("boot.default_" + (tname(def).empty() ? std::string("none") : tname(def)));
-  if (backend == "-" && otarget == "-") {
+  if (backend == "-" && otarget == "-" && code.find("-s") == std::string::npos && code.find("-a") == std::string::npos) {
     // no override of any kind: the default is the best backend this CPU supports
     if (tname(def) != expect)
       c.violation("default", "default-not-best-supported", strf("default target is '%s' but the best backend this CPU supports is '%s'", tname(def).c_str(), expect.c_str()));
